@@ -212,6 +212,7 @@ func init() {
 	for _, id := range []string{"C08", "C11"} {
 		props[id].Harnesses = append(props[id].Harnesses, HarnessSpec{Name: "VH_C11_encrypted_layouts", Replay: "native", Unwind: 400})
 	}
+	props["C19"].Harnesses = append(props["C19"].Harnesses, HarnessSpec{Name: "VH_C17_isolation", Replay: "native", Unwind: 2000})
 	trust := HarnessSpec{Name: "VH_C02_trust_store", Replay: "native", Unwind: 400}
 	for _, id := range []string{"C01", "C02", "C04", "C10"} {
 		props[id].Harnesses = append(props[id].Harnesses, trust)
